@@ -1,6 +1,7 @@
 #!/bin/bash
-# tools/collect_mutant.sh C10 A  -> stages /tmp/mut/C10/_out/A.* as /tmp/seeded_in/C10-A/{patch.diff,demo_test.go,meta.json}
-ID=$1; X=$2; SRC=/tmp/mut/$ID/_out; DST=/tmp/seeded_in/$ID-$X
+# tools/collect_mutant.sh <srcroot> C10 A [name-suffix] -> stages <srcroot>/C10/_out/A.* as /tmp/seeded_in/C10-<suffix|A>/{patch.diff,demo_test.go,meta.json}
+ROOT=$1; ID=$2; X=$3; N=${4:-$X}; SRC=$ROOT/$ID/_out; DST=/tmp/seeded_in/$ID-$N
+[ -f $SRC/$X.patch ] || { echo "missing $SRC/$X.patch"; exit 1; }
 mkdir -p $DST && cp $SRC/$X.patch $DST/patch.diff && cp $SRC/${X}_demo_test.go $DST/demo_test.go
-jq --arg x $X --arg id $ID '{property: $id, variant: $x} + (.[$x] // {})' $SRC/meta.json > $DST/meta.json 2>/dev/null || echo "{\"property\":\"$ID\",\"variant\":\"$X\"}" > $DST/meta.json
+jq --arg x $X --arg n $N --arg id $ID '{property: $id, variant: $n} + (.[$x] // {})' $SRC/meta.json > $DST/meta.json 2>/dev/null || echo "{\"property\":\"$ID\",\"variant\":\"$N\"}" > $DST/meta.json
 echo staged $DST
